@@ -57,6 +57,10 @@ func generate(seed uint64, prop string) simrt.Case {
 	cfg := config{Seed: seed, Mode: "stream"}
 	if r.Chance(2, 5) {
 		cfg.Mode = "mconn"
+	} else if r.Chance(1, 6) {
+		cfg.Mode = "mitm"
+		bz, _ := json.Marshal(cfg)
+		return simrt.Case{Config: bz, Actions: []simrt.Action{{K: "mitm", A: int64(r.Intn(1 << 16))}}}
 	}
 	var acts []simrt.Action
 	sizes := []int{0, 1, 2, 3, 10, 100, 1023, 1024, 1025, 2047, 2048, 2049, 3000, 5000}
@@ -85,8 +89,14 @@ func generate(seed uint64, prop string) simrt.Case {
 	} else {
 		cfg.RecvCap = []int{2048, 5000, 20000}[r.Intn(3)]
 		n := 3 + r.Intn(25)
+		// go-wire puts a 3-byte length in front of payloads of 256..65535 bytes: these payloads make the
+		// encoded message an exact multiple of the 1024-byte packet payload
+		exact := []int{1021, 2045, 3069, 4093}
 		for i := 0; i < n; i++ {
 			sz := sizes[1+r.Intn(len(sizes)-1)]
+			if r.Chance(1, 5) {
+				sz = exact[r.Intn(len(exact))]
+			}
 			if sz > cfg.RecvCap-8 {
 				sz = cfg.RecvCap - 8
 			}
@@ -230,6 +240,8 @@ func run(c simrt.Case, out *simrt.Outcome, lg *simrt.Log) {
 		w.runStream(c.Actions)
 	case "mconn":
 		w.runMConn(c.Actions)
+	case "mitm":
+		w.runMITM(c.Actions)
 	}
 	for _, p := range w.own.panics {
 		w.viol("panic", "goroutine", "a goroutine of the transport panicked: %.300s", p)
